@@ -52,7 +52,10 @@ def main():
     # 1. proof obligations
     ok_gen, log_gen = common.regen()
     if not ok_gen:
-        ctx.broken_tie('translator', 'py2coq', log_gen[-3000:])
+        # a generated file the translator could not produce does not compile (fail closed): the build below breaks for exactly
+        # the properties whose theorems or models depend on it; the others are not concerned (a rewrite of web_app.py is no
+        # reason for the language properties to stop being shown)
+        ctx.extra['translator_failures'] = [l for l in log_gen.splitlines() if 'FAILED' in l][-10:]
     rc, log = common.build(['Props/%s.vo' % prop] + getattr(mod, 'EXTRA_TARGETS', []))
     proof = common.compile_props(prop) if rc == 0 else {'ok': False, 'rc': rc, 'log': log, 'theorems': [], 'stated': []}
     if rc != 0 and not proof['stated']:
